@@ -20,7 +20,7 @@ import re
 
 import sympy
 
-from mmsa import au, cfg as cfgmod, dataflow, search, sym
+from mmsa import au, cfg as cfgmod, dataflow, pathcond, search, sym
 from mmsa.core import Undecided, norm, walk_no_nested
 from mmsa.props import c01, c02
 from mmsa.types import FuncCtx
@@ -94,25 +94,44 @@ def extract_nest(repo, rep):
       if m:
         counts[n.ast.targets[0].id] = m.group(1)
   # accumulate statement
-  accs = [n for n in g.nodes if n.kind == 'stmt' and isinstance(n.ast, ast.AugAssign) and isinstance(n.ast.op, ast.Add)]
   rets = [n for n in g.nodes if n.kind == 'return' and n.ast.value is not None]
-  if len(accs) != 1 or len(rets) != 1 or norm(rets[0].ast.value) != norm(accs[0].ast.target):
+  total = norm(rets[0].ast.value) if len(rets) == 1 else None
+  accs = []
+  for n in g.nodes:
+    if n.kind != 'stmt':
+      continue
+    if isinstance(n.ast, ast.AugAssign) and isinstance(n.ast.op, ast.Add) and norm(n.ast.target) == total:
+      accs.append((n, n.ast.value))
+    elif isinstance(n.ast, ast.Assign) and len(n.ast.targets) == 1 and norm(n.ast.targets[0]) == total \
+        and isinstance(n.ast.value, ast.BinOp) and isinstance(n.ast.value.op, ast.Add):
+      # total = total + product
+      if norm(n.ast.value.left) == total:
+        accs.append((n, n.ast.value.right))
+      elif norm(n.ast.value.right) == total:
+        accs.append((n, n.ast.value.left))
+  if len(accs) != 1 or total is None:
     raise Undecided('count_max_designs: expected one `total += product` statement returning the total')
-  acc = accs[0]
-  init = [n for n in g.nodes if n.kind == 'stmt' and isinstance(n.ast, ast.Assign) and norm(n.ast.targets[0]) == norm(acc.ast.target)]
+  acc, summand = accs[0]
+  ctx.summand = summand
+  init = [n for n in g.nodes if n.kind == 'stmt' and isinstance(n.ast, ast.Assign) and norm(n.ast.targets[0]) == total and n is not acc]
   loops = []
-  conds = []
   cur = acc.ast
   par = getattr(cur, '_parent', None)
   while par is not None and par is not f.node:
     if isinstance(par, ast.For):
       loops.append(par)
-    elif isinstance(par, ast.If):
-      conds.append((par.test, any(cur is s for s in par.body), par))
     elif isinstance(par, (ast.While, ast.Try, ast.With)):
       raise Undecided('count_max_designs: unexpected %s in the nest' % type(par).__name__)
     cur, par = par, getattr(par, '_parent', None)
   loops.reverse()
+  # the conditions under which the summand is added: nested ifs and `if not c: continue` guards alike
+  conds = []
+  for e, taken, tnode in cfgmod.dominating_conditions(g, acc):
+    for atom, tv in (pathcond.literals(e, taken)[0] if len(pathcond.literals(e, taken)) == 1 else [(e, taken)]):
+      k, v = pathcond.lit_key(atom, tv)
+      if isinstance(atom, ast.Compare) and len(atom.ops) == 1 and isinstance(atom.ops[0], ast.NotIn):
+        atom, tv = ast.Compare(left=atom.left, ops=[ast.In()], comparators=atom.comparators), not tv
+      conds.append((atom, tv, tnode))
   return f, ctx, counts, acc, init, loops, conds
 
 
@@ -177,7 +196,7 @@ def r2_normal_form(repo, rep, table):
     stop = rd.expand(g.node_of(l), it.args[-1], keep=tuple(idx_names))[0]
     ranges[v] = sympy.simplify(sym.to_sym(stop, leaf) - 1)      # inclusive upper bound E
   # binomial factors in the product
-  prod = rd.expand(acc, acc.ast.value, keep=tuple(idx_names))[0]
+  prod = rd.expand(acc, ctx.summand, keep=tuple(idx_names))[0]
   factors = []
 
   def collect(e):
@@ -237,7 +256,7 @@ def r2_normal_form(repo, rep, table):
       guards[test.left.id] = (test, ifst)
   lin = {}
   for nm, (test, ifst) in guards.items():
-    node = g.node_of(ifst)
+    node = ifst
     ex = rd.expand(node, test.left, keep=tuple(idx_names))[0]
     lin[nm] = (sympy.expand(sym.to_sym(ex, leaf)), norm(rd.expand(node, test.comparators[0], keep=tuple(idx_names) + tuple(guards))[0]), ifst)
   trt = [nm for nm, (e, s, i) in lin.items() if re.fullmatch(r'set\(self\.treatment_group_size_range\(\)\)', s)]
